@@ -353,6 +353,7 @@ type runResult struct {
 	reqOf     map[any]int
 	resetAt   time.Time
 	startT    time.Duration // just before proc.Start, on the event log's clock
+	jitter    time.Duration // largest overshoot of a 1 ms sleep measured while the run was executing (scheduler load)
 }
 
 func comboKey(keys []string, meta map[string][]string) string {
@@ -468,6 +469,27 @@ func execPlan(p *runPlan) *runResult {
 	}
 	_ = processor.Settings{}
 	res.startT = time.Since(res.resetAt)
+	// scheduling jitter probe: how late does this process wake up from a 1 ms sleep while the run executes?
+	jitterStop := make(chan struct{})
+	var jitterMax int64
+	go func() {
+		for {
+			select {
+			case <-jitterStop:
+				return
+			default:
+			}
+			t0 := time.Now()
+			time.Sleep(time.Millisecond)
+			if over := int64(time.Since(t0) - time.Millisecond); over > atomic.LoadInt64(&jitterMax) {
+				atomic.StoreInt64(&jitterMax, over)
+			}
+		}
+	}()
+	defer func() {
+		close(jitterStop)
+		res.jitter = time.Duration(atomic.LoadInt64(&jitterMax))
+	}()
 	if err := proc.Start(context.Background(), componenttest.NewNopHost()); err != nil {
 		res.hang = err.Error()
 		return res
@@ -929,6 +951,7 @@ func validate(res *runResult, out *Output, run int, stats map[string]int) {
 		if p.Trickle {
 			limit = time.Duration(p.Cfg.TimeoutMs)*time.Millisecond*5 + 200*time.Millisecond
 		}
+		limit += 4 * res.jitter
 		for id, ks := range exportsOf {
 			for k := range ks {
 				if st, ok := sendT[k]; ok {
@@ -940,6 +963,9 @@ func validate(res *runResult, out *Output, run int, stats map[string]int) {
 				}
 			}
 		}
+	}
+	if j := int(res.jitter / time.Millisecond); j > stats["max_sched_jitter_ms"] {
+		stats["max_sched_jitter_ms"] = j
 	}
 	stats["exports"] += len(sk.exports)
 	stats["requests"] += len(p.Reqs)
@@ -1268,6 +1294,8 @@ func timeCases(res *runResult, tb, pb *strings.Builder, nt, np *int) {
 	if p.Trickle {
 		delta = timeout*5 + 200000
 	}
+	// the lateness the runtime is allowed grows with the scheduling jitter measured during this very run
+	delta += 4 * us(res.jitter)
 	timer := p.Cfg.TimeoutMs != 0 && p.Cfg.SendSize != 0
 	byShard := map[int][]cbp.VerifEvent{}
 	var order []int
